@@ -279,6 +279,7 @@ def run(rdir, want=("definition", "references", "rename")):
             return s
 
         s = fresh()
+        asked = {}
 
         def req(method, fn, l, c, extra=None):
             nonlocal s
@@ -286,6 +287,8 @@ def run(rdir, want=("definition", "references", "rename")):
             params.update(extra or {})
             d["requests"] += 1
             r = s.request(method, params, timeout=8)
+            if method in ("textDocument/definition", "textDocument/references") and "result" in r:
+                asked.setdefault((method, fn, l, c, json.dumps(extra, sort_keys=True)), r.get("result"))
             if "error" in r and "result" not in r:
                 d["silent"].append("%s %s:%d:%d" % (method.split("/")[-1], fn, l, c))
                 probs.append("%s: the server does not answer %s at %s:%d:%d (%s)" % (pname, method.split("/")[-1], fn, l, c, r.get("error")))
@@ -425,4 +428,33 @@ def run(rdir, want=("definition", "references", "rename")):
                 if r not in (None, []):
                     probs.append("%s: references at a non-identifier %s:%d:%d returns %s" % (pname, fn, l, c, json.dumps(r)[:80]))
         s.shutdown()
+        # ---- round 13: the same texts reached by another road. Every document is opened with an unsaved line on top, the
+        # server is made to evaluate that (one request), and the documents are closed without saving: the current texts are
+        # the files on disk again - the texts the answers above were given for - so every answer has to be the same.
+        if asked and not d["silent"]:
+            s2 = lspdrv.Server(binary, root)
+            s2.initialize()
+            for n, t in files.items():
+                s2.notify("textDocument/didOpen", {"textDocument": {"uri": "file://" + os.path.join(root, n), "languageId": "oal", "version": 1, "text": "// unsaved\n" + t}})
+            n0 = sorted(files)[0]
+            s2.request("textDocument/definition", {"textDocument": {"uri": "file://" + os.path.join(root, n0)}, "position": pos(0, 0)}, timeout=8)
+            for n in files:
+                s2.notify("textDocument/didClose", {"textDocument": {"uri": "file://" + os.path.join(root, n)}})
+            differ = 0
+            for (method, fn, l, c, extra), r1 in asked.items():
+                params = {"textDocument": {"uri": "file://" + os.path.join(root, fn)}, "position": pos(l, c)}
+                params.update(json.loads(extra) or {})
+                d["requests"] += 1
+                r2 = s2.request(method, params, timeout=8)
+                def canon(x):      # the order of a list of locations is not part of the answer
+                    return sorted(json.dumps(y, sort_keys=True) for y in x) if isinstance(x, list) else json.dumps(x, sort_keys=True)
+                if "result" not in r2 or canon(r2.get("result")) != canon(r1):
+                    differ += 1
+                    if differ <= 2:
+                        probs.append("%s: %s at %s:%d:%d answers %s after the documents were opened with an unsaved line, evaluated and closed unsaved, "
+                                     "but %s for the same texts on a fresh server" % (pname, method.split("/")[-1], fn, l, c, json.dumps(r2.get("result", r2.get("error")))[:100], json.dumps(r1)[:100]))
+                    if "result" not in r2:
+                        break
+            d["reopened_and_closed"] = {"requests": len(asked), "differ": differ}
+            s2.shutdown()
     return probs, detail
